@@ -319,6 +319,16 @@ func (g *Gen) wantClause(c *Clause) bool {
 
 // useAxiom instantiates a trusted axiom or a proved lemma: "use name(args)".
 func (g *Gen) useAxiom(env *Env, u *CE) {
+	if u.Op == "forall" && len(u.Args) == 1 && u.Args[0].Op == "call" && u.Args[0].Args[0].Op == "ident" && g.Specs.Axioms[u.Args[0].Args[0].Name] != nil {
+		// "use forall i T :: axiom(args(i))": the axiom at every i, instantiated lazily like any
+		// assumed universal fact
+		n := *env
+		n.hyp = true
+		n.axiomUse = true
+		h := n.tr(u, true)
+		g.s.assumeUnder(env.pc, h.S)
+		return
+	}
 	if u.Op != "call" || u.Args[0].Op != "ident" {
 		fail("use needs name(args): %s", u)
 	}
